@@ -1,6 +1,9 @@
 package main
 
 import (
+	"go/token"
+	"go/types"
+
 	"golang.org/x/tools/go/ssa"
 )
 
@@ -118,9 +121,27 @@ func ruleC05(c *Ctx) {
 		c.RequireCall("mustpass", sc, true, pTypes+".parseTypedInput")
 	}
 	pti := c.Func(pTypes, "parseTypedInput")
-	c.RequireGuard("guard", c.ScopeFunc(pti), "unknown input type rejected", func(v ssa.Value) bool { l, ok := v.(*ssa.Lookup); return ok && l.CommaOk })
+	// the failure-only branch must depend on the type byte just read into the local [1]byte buffer
+	// (map lookup with comma-ok, a switch over the known types, a helper returning ok: all qualify)
+	typeByte := func(v ssa.Value) bool {
+		u, ok := v.(*ssa.UnOp)
+		if !ok || u.Op != token.MUL {
+			return false
+		}
+		ia, ok := u.X.(*ssa.IndexAddr)
+		if !ok {
+			return false
+		}
+		a, ok := ia.X.(*ssa.Alloc)
+		if !ok {
+			return false
+		}
+		_, isArr := a.Type().Underlying().(*types.Pointer).Elem().Underlying().(*types.Array)
+		return isArr
+	}
+	c.RequireGuard("guard", c.ScopeFunc(pti), "unknown input type rejected", typeByte)
 	pto := c.Func(pTypes, "parseTypedOutput")
-	c.RequireGuard("guard", c.ScopeFunc(pto), "unknown output type rejected", func(v ssa.Value) bool { l, ok := v.(*ssa.Lookup); return ok && l.CommaOk })
+	c.RequireGuard("guard", c.ScopeFunc(pto), "unknown output type rejected", typeByte)
 	// varstr reads are bounded by the remaining input
 	rv := c.Func("encoding/blockchain", "ReadVarstr31")
 	c.RequireGuard("guard", c.ScopeWhen(rv, "non-empty string", "call:encoding/blockchain.ReadVarint31#0 != 0"), "string length bounded by the remaining input", readsField("encoding/blockchain.Reader", "buf"), callsKey("builtin:len"))
